@@ -320,9 +320,27 @@ func edgeBranchCase(ctx context.Context, rep *mon.Reporter, rng *mon.Rand, cfg m
 	}
 	rep.Count("edge_plus_branch_specs", 1)
 	rep.Distinct("edge_plus_branch_shapes", sh.kindDigest())
-	vecs, all := outcomeVectors(rng, spec, 64)
+	vecs, all := outcomeVectors(rng, spec, 32)
 	if all {
 		rep.Count("edge_plus_branch_specs_with_all_outcome_vectors", 1)
+	} else {
+		// sampled: the vector this sub-workload is about is always among them - a runs, no branch of a
+		// selects x, the branches of the unrelated nodes select their z (every further predecessor of x
+		// is skipped or does not route)
+		t := map[string][]string{}
+		for _, b := range gspec.AllBranches(spec) {
+			switch {
+			case b.ID == "bs":
+				t[b.ID] = []string{"a"}
+			case b.ID == "b1":
+				t[b.ID] = []string{"y3"}
+			case b.From == "a":
+				t[b.ID] = []string{"y"}
+			default:
+				t[b.ID] = []string{b.Targets[len(b.Targets)-1]} // z<i>
+			}
+		}
+		vecs = append([]map[string][]string{t}, vecs...)
 	}
 	in := gspec.V{"in": rng.Str(1, 6)}
 	modeName := sh.Mode.String()
@@ -389,8 +407,8 @@ func ebRun(ctx context.Context, rep *mon.Reporter, sh *ebShape, r runnable, in g
 	}
 	rep.Count("runs_"+para, 1)
 	execs, _, _, _ := ctl.Log.Snapshot() // at the moment the run returned
-	if sh.XOut == "sink" || spec.Mode == gspec.Workflow || sh.Mode == gspec.Workflow {
-		// nodes that do not feed END were started before the run returned (see genEdgeBranch) but may
+	if sh.XOut == "sink" {
+		// x does not feed END: it was started before the run returned (see genEdgeBranch) but may
 		// still be running: judge the execution set of a quiescent process
 		if _, ok := mon.Settle(2, 400); !ok {
 			rep.Count("settle_incomplete", 1)
